@@ -1,19 +1,23 @@
 /-
 C08 — Load and Store move exactly the component's bytes with Go's extension rule.
 
-The move-deduction table is regenerated from build/zmov.go (`Gen.mov`, first
-match in source order); the basic types with their go/types flags and sizes are
-`Gen.basicTypes`.  The reachable input space of `Context.Load` / `Context.Store`
-is finite — direction × basic type × register class × address shape — so the
-property is decided completely by kernel evaluation.  `movSem` (what the
-selected instruction does) is a hand-written model validated on the CPU by the
-check (Props level: "proof-partial, measured oracle").
+What the real `Context.Load` / `Context.Store` do is tabulated on every run over the complete class-level input
+space — direction × basic type × register class × address shape — by RUNNING them (`Gen.movTab`, behaviour).  That
+space is finite, so the property is decided completely by kernel evaluation: `mov_ok_partial` (through the acceptor
+`acceptSel`, sound for the declarative `SelOK` by `acceptSel_sound`): a move is selected wherever the class table
+`moveWidths` has one for the type's register file (`mustMove`), a selected opcode accesses exactly the component's
+bytes and extends as Go converts, an error is reported only where no move exists.  `movSem` (what a selected
+instruction does) is a hand-written model validated on the CPU by the check ("proof-partial, measured oracle").
 
-On the unchanged tree the full-strength statement is FALSE (finding F7): 4-byte
-integers with an XMM register select `MOVQ`, an 8-byte access.  `mov_ok_partial`
-carries the explicit guard `f7`; Props/C08Finding.lean (`mov_ok_fails_at_f7`)
-proves the negation at the witness — a separate module, so that a repaired
-table makes the finding stale instead of breaking this file.
+The source of build/zmov.go (`Gen.mov`, go/ast, first match in source order) is a cross-check only: `ast_agrees`
+shows that the first-match model over the rows reproduces the behaviour whenever the extractor recognised the file
+(`Gen.movAstOK`); then `loadStore_class_invariant` lifts the class representatives to all registers.
+
+On the unchanged tree the full-strength statement is FALSE: finding F7 (4-byte integers with an XMM register select
+`MOVQ`, an 8-byte access) and finding F18 (`unsafe.Pointer` components are never moved although `MOVQ` would do).
+`mov_ok_partial` carries the explicit guards `f7`, `f18`; Props/C08Finding.lean and Props/C08FindingF18.lean prove
+the negation at the witnesses — separate modules, so that a repair makes a finding stale instead of breaking this
+file.
 -/
 import AvoVerif.Model.Mov
 import AvoVerif.Gen.Mov
@@ -23,20 +27,24 @@ set_option maxRecDepth 1000000
 
 def F : Flags := ⟨Gen.tIsBoolean, Gen.tIsInteger, Gen.tIsUnsigned, Gen.tIsFloat⟩
 
-/-- the table with checker names resolved -/
+/-- the source rows of build/zmov.go with checker names resolved (cross-check only; empty when the extractor did
+not recognise the file, `Gen.movAstOK = false`) -/
 def rows : List RRow := Gen.mov.map resolve
+
+/-- what the real `Context.Load`/`Context.Store` did over the class-level domain (regenerated on every run) -/
+def tab : List TabGroup := Gen.movTab
 
 def types : List TypeInfo := Gen.basicTypes.map (fun p => ⟨p.1, p.2.1, p.2.2⟩)
 
 def dirs : List Dir := [.load, .store]
 
-/-- the verdict at one reachable input: an error is always allowed ("when no
-instruction can do this, an error is reported"); a selected opcode must move
-exactly the component's bytes with Go's extension rule -/
+/-- the verdict at one reachable input: the implementation's outcome is judged by `acceptSel`: an error is
+acceptable only where no move exists (`mustMove`), a selected opcode must move exactly the component's bytes with
+Go's extension rule; an input missing from the table is a failure -/
 def okAt (d : Dir) (t : TypeInfo) (r : RegV) (m : Operand) : Bool :=
-  match loadStore rows d m r t with
-  | none => true
-  | some opc => opcodeOK F d t r opc
+  match behave tab d t r m with
+  | none => false
+  | some o => acceptSel F d t r o
 
 /-- **C08 at full strength**: at every reachable input. -/
 def mov_ok_statement : Prop :=
@@ -46,38 +54,227 @@ def mov_ok_statement : Prop :=
 def f7 (t : TypeInfo) (r : RegV) : Bool :=
   t.size == 4 && (has t.info F.isInteger || has t.info F.isBoolean) && r.kind == kindVector && r.size == 16
 
-/-- every checker named by the table is one of the modelled predicates, every
-case passes `(a, b)` in that order -/
+/-- F18: `unsafe.Pointer` components (no case of the table accepts them) -/
+def f18 (t : TypeInfo) : Bool := isPointer t
+
+/-! ## Soundness of the acceptors -/
+
+/-- **`acceptSel` is sound**: an accepted outcome satisfies the declarative property. -/
+theorem acceptSel_sound (F : Flags) (d : Dir) (t : TypeInfo) (r : RegV) (o : Option Nat)
+    (h : acceptSel F d t r o = true) : SelOK F d t r o := by
+  cases o with
+  | none =>
+    simp only [acceptSel, mustMove, Bool.not_eq_true', Bool.and_eq_false_iff] at h
+    simp only [SelOK]
+    intro ⟨h1, h2⟩
+    rcases h with h | h
+    · rw [h1] at h; cases h
+    · have : (moveWidths d r).contains t.size = true := List.contains_iff_mem.mpr h2
+      rw [this] at h; cases h
+  | some opc =>
+    simp only [acceptSel, opcodeOK] at h
+    simp only [SelOK]
+    cases hs : movSem opc r with
+    | none => rw [hs] at h; cases h
+    | some s =>
+      rw [hs] at h
+      refine ⟨s, rfl, ?_⟩
+      simp only [semOK, Bool.and_eq_true, beq_iff_eq] at h
+      refine ⟨h.1, ?_⟩
+      intro hd hk
+      subst hd
+      have h2 := h.2
+      simp only [hk, if_true, Bool.and_eq_true, beq_iff_eq] at h2
+      refine ⟨h2.1, ?_⟩
+      intro hne
+      have h3 := h2.2
+      simp only [hne, if_false] at h3
+      cases hsg : isSigned F t with
+      | true =>
+        simp only [hsg, if_true, beq_iff_eq] at h3
+        exact Or.inl ⟨rfl, h3⟩
+      | false =>
+        simp only [hsg, Bool.false_eq_true, if_false] at h3
+        cases hz : isZeroExt F t with
+        | true =>
+          simp only [hz, if_true, beq_iff_eq] at h3
+          exact Or.inr ⟨rfl, rfl, h3⟩
+        | false => simp [hz] at h3
+
+/-- **`acceptStoreBytes` is sound**: the component's bytes `[off, off+ts)` are the source's first `ts` bytes and
+every other byte of the memory image is what it was before ("writes exactly the component's bytes and nothing
+adjacent"). -/
+theorem acceptStoreBytes_sound (ts off : Nat) (src before after : List Nat)
+    (h : acceptStoreBytes ts off src before after = true) :
+    after.length = before.length ∧
+    (∀ i, i < ts → after[off + i]? = (src.take ts)[i]?) ∧
+    (∀ i, i < off ∨ off + ts ≤ i → after[i]? = before[i]?) := by
+  simp only [acceptStoreBytes, Bool.and_eq_true, beq_iff_eq] at h
+  obtain ⟨hl, hc, hpre, hpost⟩ := h
+  refine ⟨hl, ?_, ?_⟩
+  · intro i hi
+    have : ((after.drop off).take ts)[i]? = (src.take ts)[i]? := by rw [hc]
+    rw [List.getElem?_take_of_lt hi, List.getElem?_drop] at this
+    exact this
+  · intro i hi
+    rcases hi with hi | hi
+    · have : (after.take off)[i]? = (before.take off)[i]? := by rw [hpre]
+      rwa [List.getElem?_take_of_lt hi, List.getElem?_take_of_lt hi] at this
+    · have : (after.drop (off + ts))[i - (off + ts)]? = (before.drop (off + ts))[i - (off + ts)]? := by rw [hpost]
+      rw [List.getElem?_drop, List.getElem?_drop] at this
+      have e : off + ts + (i - (off + ts)) = i := by omega
+      rwa [e] at this
+
+/-- **`acceptLoadGP` is sound**: the register's value bytes are Go's conversion of the component to the register's
+width and the register depends on exactly the component's bytes. -/
+theorem acceptLoadGP_sound (F : Flags) (t : TypeInfo) (rsize roff off : Nat) (v reg : List Nat) (lo hi cnt : Nat)
+    (h : acceptLoadGP F t rsize roff off v reg lo hi cnt = true) :
+    (lo = off ∧ hi = off + t.size ∧ cnt = t.size) ∧
+    (reg.drop roff).take rsize = leBytes (goConvert F t (leNat v) rsize) rsize := by
+  simp only [acceptLoadGP, Bool.and_eq_true, beq_iff_eq] at h
+  exact ⟨⟨h.1, h.2.1, h.2.2.1⟩, h.2.2.2⟩
+
+theorem acceptLoadLow_sound (ts off : Nat) (v reg : List Nat) (lo hi cnt : Nat)
+    (h : acceptLoadLow ts off v reg lo hi cnt = true) :
+    (lo = off ∧ hi = off + ts ∧ cnt = ts) ∧ reg.take ts = v := by
+  simp only [acceptLoadLow, Bool.and_eq_true, beq_iff_eq] at h
+  exact ⟨⟨h.1, h.2.1, h.2.2.1⟩, h.2.2.2⟩
+
+/-- the signed value of the `w`-byte two's-complement pattern `v` -/
+def signedVal (v w : Nat) : Int := if 2 ^ (8 * w - 1) ≤ v then (v : Int) - (2 ^ (8 * w) : Nat) else v
+
+theorem topBit_iff (v n : Nat) (hv : v < 2 ^ (n + 1)) : ((v >>> n) % 2 == 1) = decide (2 ^ n ≤ v) := by
+  rw [Nat.shiftRight_eq_div_pow]
+  have hlt : v / 2 ^ n < 2 := by
+    rw [Nat.div_lt_iff_lt_mul (Nat.two_pow_pos n)]
+    rw [Nat.pow_succ] at hv; omega
+  by_cases h : 2 ^ n ≤ v
+  · have : 1 ≤ v / 2 ^ n := (Nat.le_div_iff_mul_le (Nat.two_pow_pos n)).mpr (by omega)
+    have e : v / 2 ^ n = 1 := by omega
+    simp [e, h]
+  · have e : v / 2 ^ n = 0 := Nat.div_eq_of_lt (by omega)
+    simp [e, h]
+
+/-- **`extend .sign` is Go's conversion of a signed integer to a wider type**: the `k`-byte two's-complement
+pattern of the SAME signed value (for `0 < w ≤ k`, `v` a `w`-byte pattern). -/
+theorem extend_sign_spec (v w k : Nat) (hw : 0 < w) (hwk : w ≤ k) (hv : v < 2 ^ (8 * w)) :
+    ((extend .sign v w k : Nat) : Int) = signedVal v w % ((2 ^ (8 * k) : Nat) : Int) ∧ extend .sign v w k < 2 ^ (8 * k) := by
+  have hAB : 2 ^ (8 * w) ≤ 2 ^ (8 * k) := Nat.pow_le_pow_right (by decide) (by omega)
+  have hApos : 0 < 2 ^ (8 * w) := Nat.two_pow_pos _
+  have hsucc : 8 * w - 1 + 1 = 8 * w := by omega
+  have hbit := topBit_iff v (8 * w - 1) (by rw [hsucc]; exact hv)
+  have hhalf : 2 ^ (8 * w - 1) * 2 = 2 ^ (8 * w) := by rw [← Nat.pow_succ]; exact congrArg (2 ^ ·) hsucc
+  unfold extend signedVal
+  simp only [hbit, hw, decide_true, Bool.true_and]
+  generalize hA : 2 ^ (8 * w) = A at *
+  generalize hB : 2 ^ (8 * k) = B at *
+  generalize hH : 2 ^ (8 * w - 1) = H at *
+  by_cases h : H ≤ v
+  · simp only [h, decide_true, if_true]
+    constructor
+    · have e : ((v + (B - 1 - (A - 1)) : Nat) : Int) = (v : Int) - (A : Int) + (B : Int) := by omega
+      rw [e, ← Int.add_emod_right ((v : Int) - (A : Int)) (B : Int)]
+      rw [Int.emod_eq_of_lt] <;> omega
+    · omega
+  · simp only [h, decide_false, if_false, Bool.false_eq_true]
+    constructor
+    · rw [Int.emod_eq_of_lt] <;> omega
+    · omega
+
+/-- non-vacuity: int8(-128) converted to 32 bits -/
+example : extend .sign 0x80 1 4 = 0xffffff80 ∧ signedVal 0x80 1 = -128 := by decide
+
+/-- Go's conversion of a signed component is the two's-complement pattern of the same value at the register's
+width; unsigned integers and booleans keep their (non-negative) value (zero extension) -/
+theorem goConvert_spec (t : TypeInfo) (v k : Nat) (hw : 0 < t.size) (hwk : t.size ≤ k) (hv : v < 2 ^ (8 * t.size)) :
+    (isSigned F t = true → ((goConvert F t v k : Nat) : Int) = signedVal v t.size % ((2 ^ (8 * k) : Nat) : Int)) ∧
+    (isSigned F t = false → goConvert F t v k = v) := by
+  constructor
+  · intro h; simp only [goConvert, h, if_true]; exact (extend_sign_spec v t.size k hw hwk hv).1
+  · intro h; simp [goConvert, h]
+
+/-! ## The behaviour table -/
+
+/-- the table is complete: every class-level input was run -/
+theorem tab_complete :
+    (dirs.all fun d => types.all fun t => regClasses.all fun r => memReps.all fun m =>
+      (behave tab d t r m).isSome) = true := by
+  decide +kernel
+
+/-- every opcode the implementation selected has a modelled semantics -/
+theorem tab_opcodes_modelled :
+    tab.all (fun g => g.rows.all fun e => match e.outcome with
+      | none => true
+      | some opc => (semTable.find? (fun s => s.1 == opc)).isSome) = true := by
+  decide +kernel
+
+/-- types with the same go/types flags and size (int/int64, uint/uint64/uintptr, uint8/byte, int32/rune) are
+treated alike: the look-up by (flags, size) is unambiguous -/
+theorem tab_type_determined :
+    (tab.all fun g => tab.all fun g' =>
+      !(g.dir == g'.dir && g.tinfo == g'.tinfo && g.tsize == g'.tsize) || g.rows == g'.rows) = true := by
+  decide +kernel
+
+/-- the address's base register (FP pseudo register or general purpose) makes no difference -/
+theorem tab_address_independent :
+    (dirs.all fun d => types.all fun t => regClasses.all fun r =>
+      memReps.all fun m => memReps.all fun m' => behave tab d t r m == behave tab d t r m') = true := by
+  decide +kernel
+
+/-- every checker named by the source rows is one of the modelled predicates, every case passes `(a, b)` in
+that order (vacuous when the source was not recognised) -/
 theorem mov_table_resolved :
     Gen.mov.all (fun r => (OpClass.ofChecker r.pa).isSome && (OpClass.ofChecker r.pb).isSome && r.inOrder) = true := by
   decide +kernel
 
-/-- the default branch is `c.adderrormessage("could not deduce mov instruction")` -/
-theorem mov_default :
-    Gen.movDefault = (0x6164646572726f726d6573736167650fd550bf00, 0x636f756c645f6e6f745f6465647563655f6d6f765f696e737472756374696f6e202b1be654) := by
-  decide +kernel
-
-/-- every opcode the table can emit has a modelled semantics -/
+/-- every opcode the source rows can emit has a modelled semantics -/
 theorem mov_opcodes_modelled :
     Gen.mov.all (fun r => (semTable.find? (fun e => e.1 == r.opcode)).isSome) = true := by
   decide +kernel
 
-theorem mov_ok_partial_bool :
-    (dirs.all fun d => types.all fun t => regClasses.all fun r => memReps.all fun m =>
-      f7 t r || okAt d t r m) = true := by
+/-- **Source and behaviour agree**: when build/zmov.go was recognised, the first-match model over its rows gives,
+at every class-level input, exactly what the real code did. -/
+theorem ast_agrees_bool :
+    (!Gen.movAstOK || (dirs.all fun d => types.all fun t => regClasses.all fun r => memReps.all fun m =>
+      behave tab d t r m == some (loadStore rows d m r t))) = true := by
   decide +kernel
 
-/-- **C08 (partial: outside F7).** At every reachable input except 4-byte
-integers with an XMM register, the selected instruction — if any — accesses
-exactly the component's bytes and extends as Go converts.  Missing for full
-strength: the `f7` inputs, where the unchanged table is wrong (see below). -/
+theorem ast_agrees (h : Gen.movAstOK = true) :
+    ∀ d ∈ dirs, ∀ t ∈ types, ∀ r ∈ regClasses, ∀ m ∈ memReps,
+      behave tab d t r m = some (loadStore rows d m r t) := by
+  intro d hd t ht r hr m hm
+  have hb := ast_agrees_bool
+  simp only [h, Bool.not_true, Bool.false_or, List.all_eq_true] at hb
+  simpa using hb d hd t ht r hr m hm
+
+theorem mov_ok_partial_bool :
+    (dirs.all fun d => types.all fun t => regClasses.all fun r => memReps.all fun m =>
+      f7 t r || f18 t || okAt d t r m) = true := by
+  decide +kernel
+
+/-- **C08 (partial: outside F7 and F18).** At every reachable input except 4-byte integers with an XMM register
+(F7) and `unsafe.Pointer` components (F18): where the class table has a move of the component's width for the
+type's register file an instruction IS selected; a selected instruction accesses exactly the component's bytes
+and extends as Go converts; an error is reported only where no move exists.  Missing for full strength: the F7
+and F18 inputs, where the unchanged code is wrong (Props/C08Finding.lean). -/
 theorem mov_ok_partial :
-    ∀ d ∈ dirs, ∀ t ∈ types, ∀ r ∈ regClasses, ∀ m ∈ memReps, f7 t r = false → okAt d t r m = true := by
-  intro d hd t ht r hr m hm hg
+    ∀ d ∈ dirs, ∀ t ∈ types, ∀ r ∈ regClasses, ∀ m ∈ memReps, f7 t r = false → f18 t = false → okAt d t r m = true := by
+  intro d hd t ht r hr m hm hg hp
   have h := mov_ok_partial_bool
   simp only [List.all_eq_true] at h
   have := h d hd t ht r hr m hm
-  simpa [hg] using this
+  simpa [hg, hp] using this
+
+/-- the same, declaratively (through `acceptSel_sound`) -/
+theorem mov_sel_ok :
+    ∀ d ∈ dirs, ∀ t ∈ types, ∀ r ∈ regClasses, ∀ m ∈ memReps, f7 t r = false → f18 t = false →
+      ∃ o, behave tab d t r m = some o ∧ SelOK F d t r o := by
+  intro d hd t ht r hr m hm hg hp
+  have h := mov_ok_partial d hd t ht r hr m hm hg hp
+  unfold okAt at h
+  cases hb : behave tab d t r m with
+  | none => rw [hb] at h; cases h
+  | some o => rw [hb] at h; exact ⟨o, rfl, acceptSel_sound F d t r o h⟩
 
 def tUint32 : TypeInfo := ⟨0x75696e74333206cab25ce1, 6, 4⟩   -- uint32: IsInteger|IsUnsigned, 4 bytes
 def rXMM : RegV := ⟨kindVector, 16, 513, 31, nV⟩
@@ -115,31 +312,32 @@ theorem mov_first (rs : List RRow) (a b : Operand) (an bn ti opc : Nat)
     refine ⟨pre, r, post, hsplit, ?_, by simpa using hp, by simpa using h⟩
     intro q hq; simpa using hpre q hq
 
-/-- **No narrower or wider general-purpose access.** A general-purpose
-register narrower than the component is an error for loads; for stores the
-register must have exactly the component's width. -/
+/-- **No narrower or wider general-purpose access.** A general-purpose register narrower than the component is
+an error for loads; for stores the register must have exactly the component's width. -/
 theorem gp_width_errors :
     (types.all fun t => regClasses.all fun r => memReps.all fun m =>
       (!(r.kind == kindGP) ||
-        ((decide (r.size < t.size) → loadStore rows .load m r t = none) ∧
-         (decide (r.size ≠ t.size) → loadStore rows .store m r t = none)))) = true := by
+        ((decide (r.size < t.size) → behave tab .load t r m = some none) ∧
+         (decide (r.size ≠ t.size) → behave tab .store t r m = some none)))) = true := by
   decide +kernel
 
-/-- **Integers and booleans load into every general-purpose register that is
-wide enough** (the first sentence of the property is not vacuous). -/
-theorem gp_loads_defined :
-    (types.all fun t => regClasses.all fun r => memReps.all fun m =>
-      (!(r.kind == kindGP && (has t.info F.isInteger || has t.info F.isBoolean) && decide (t.size ≤ r.size)) ||
-        (loadStore rows .load m r t).isSome)) = true := by
-  decide +kernel
-
-/-- **Where a move must exist, one is selected**: integers and booleans with
-general-purpose registers of sufficient (load) / equal (store) width, floats
-with XMM registers. -/
+/-- **Where a move must exist, one is selected** (outside F18): every (type, register class) pair of the class
+table — integers, booleans with general-purpose registers of sufficient (load) / equal (store) width, with mask
+registers, 4- and 8-byte integers and floats with XMM registers. -/
 theorem must_move_defined :
     (dirs.all fun d => types.all fun t => regClasses.all fun r => memReps.all fun m =>
-      (!(mustMove F d t r) || (loadStore rows d m r t).isSome)) = true := by
+      (!(mustMove F d t r) || f18 t ||
+        (match behave tab d t r m with | some (some _) => true | _ => false))) = true := by
   decide +kernel
+
+/-- the `mustMove` domain is not empty in any register file: one witness per class -/
+example : mustMove F .load ⟨0, Gen.tIsInteger, 2⟩ ⟨kindOpmask, 8, 769, 15, nV⟩ = true := by decide
+example : mustMove F .store ⟨0, Gen.tIsInteger, 8⟩ ⟨kindVector, 16, 513, 31, nV⟩ = true := by decide
+example : mustMove F .store ⟨0, Gen.tIsFloat, 4⟩ ⟨kindVector, 16, 513, 31, nV⟩ = true := by decide
+example : mustMove F .load ⟨0, Gen.tIsBoolean, 1⟩ ⟨kindGP, 1, 257, 2, nV⟩ = true := by decide
+example : mustMove F .load ⟨0, Gen.tIsFloat, 4⟩ ⟨kindGP, 4, 257, 7, nV⟩ = false := by decide
+example : mustMove F .load ⟨0, Gen.tIsInteger, 2⟩ ⟨kindVector, 16, 513, 31, nV⟩ = false := by decide
+example : mustMove F .load ⟨0, Gen.tIsFloat, 4⟩ ⟨kindVector, 32, 513, 63, nV⟩ = false := by decide
 
 /-! ## One register per class represents the class -/
 
@@ -216,8 +414,24 @@ theorem loadStore_class_invariant (d : Dir) (t : TypeInfo) (r r' : RegV) (m m' :
     simp only [loadStore, deduce, hs]
     rw [find?_congr' _ _ rows (fun q hq => (key q hq r'.size t.size).2)]
 
-/-- non-vacuity: a sign-extending load is selected and judged -/
-example : loadStore rows .load mFP ⟨kindGP, 4, 257, 7, nV⟩ ⟨0x696e743804467285d3, 2, 1⟩ = some oMOVBLSX := by
+/-- non-vacuity: a sign-extending load is selected by the real code and judged -/
+example : behave tab .load ⟨0x696e743804467285d3, 2, 1⟩ ⟨kindGP, 4, 257, 7, nV⟩ mFP = some (some oMOVBLSX) := by
   decide +kernel
+/-- a store is selected and judged -/
+example : behave tab .store ⟨0x75696e74333206cab25ce1, 6, 4⟩ ⟨kindGP, 4, 257, 7, nV⟩ mFP = some (some oMOVL) ∧
+    okAt .store ⟨0x75696e74333206cab25ce1, 6, 4⟩ ⟨kindGP, 4, 257, 7, nV⟩ mFP = true := by
+  decide +kernel
+/-- an error where no move exists is accepted, an error where one exists is not -/
+example : acceptSel F .load ⟨0, Gen.tIsInteger, 2⟩ ⟨kindVector, 16, 513, 31, nV⟩ none = true ∧
+    acceptSel F .load ⟨0, Gen.tIsInteger, 8⟩ ⟨kindOpmask, 8, 769, 15, nV⟩ none = false := by decide
+/-- the hypotheses of `mov_ok_partial` are satisfiable -/
+example : ⟨0x696e743804467285d3, 2, 1⟩ ∈ types ∧ f7 ⟨0x696e743804467285d3, 2, 1⟩ ⟨kindGP, 4, 257, 7, nV⟩ = false ∧
+    f18 ⟨0x696e743804467285d3, 2, 1⟩ = false := by decide +kernel
+/-- the byte acceptors accept a correct image and reject an adjacent overwrite -/
+example : acceptStoreBytes 2 2 [0x11, 0x22, 0x33] [0x5a, 0x5a, 0x5a, 0x5a, 0x5a, 0x5a] [0x5a, 0x5a, 0x11, 0x22, 0x5a, 0x5a] = true ∧
+    acceptStoreBytes 2 2 [0x11, 0x22, 0x33] [0x5a, 0x5a, 0x5a, 0x5a, 0x5a, 0x5a] [0x5a, 0x5a, 0x11, 0x22, 0x33, 0x5a] = false ∧
+    acceptStoreBytes 2 2 [0x11, 0x22, 0x33] [0x5a, 0x5a, 0x5a, 0x5a, 0x5a, 0x5a] [0x5a, 0x00, 0x11, 0x22, 0x5a, 0x5a] = false := by decide
+example : acceptLoadGP F ⟨0, Gen.tIsInteger, 1⟩ 4 0 1 [0x80] [0x80, 0xff, 0xff, 0xff] 1 2 1 = true ∧
+    acceptLoadGP F ⟨0, Gen.tIsInteger, 1⟩ 4 0 1 [0x80] [0x80, 0, 0, 0] 1 2 1 = false := by decide
 
 end Avo.Mov
